@@ -311,5 +311,126 @@ impl EventGen for LoopElement {
 //@end
 }
 
+
+// ------------------------------------------------------------------------------ <for>
+pub open spec fn for_passes(var: Seq<char>, idx: Option<Seq<char>>, items: Seq<Seq<char>>, bodies: Seq<Step>, n: nat) -> Seq<Step>
+    decreases n
+{
+    if n == 0 { Seq::<Step>::empty() } else {
+        let k = (n - 1) as nat;
+        for_passes(var, idx, items, bodies, k)
+            + seq![Step::Set(var, items[k as int])]
+            + (match idx { Some(i) => seq![Step::Set(i, u32_str(k as int))], None => Seq::<Step>::empty() })
+            + seq![bodies[k as int]]
+    }
+}
+pub proof fn lemma_for_push(var: Seq<char>, idx: Option<Seq<char>>, items: Seq<Seq<char>>, bodies: Seq<Step>, x: Step, n: nat)
+    requires n <= bodies.len()
+    ensures for_passes(var, idx, items, bodies.push(x), n) == for_passes(var, idx, items, bodies, n)
+    decreases n
+{
+    if n > 0 {
+        lemma_for_push(var, idx, items, bodies, x, (n - 1) as nat);
+        assert(bodies.push(x)[n - 1] == bodies[n - 1]);
+    }
+}
+pub proof fn lemma_for_pass(var: Seq<char>, idx: Option<Seq<char>>, items: Seq<Seq<char>>, bodies: Seq<Step>, x: Step, n: nat,
+                            pre: Seq<Step>, tr0: Seq<Step>, tr1: Seq<Step>)
+    requires bodies.len() == n, x is Body, n < items.len(),
+        tr0 == pre + for_passes(var, idx, items, bodies, n),
+        tr1 == tr0 + seq![Step::Set(var, items[n as int])] + (match idx { Some(i) => seq![Step::Set(i, u32_str(n as int))], None => Seq::<Step>::empty() }) + seq![x],
+    ensures
+        tr1 == pre + for_passes(var, idx, items, bodies.push(x), n + 1),
+        cat_events(bodies.push(x), n + 1) == cat_events(bodies, n) + x->Body_0,
+        cat_boxes(bodies.push(x), n + 1) == (match x->Body_1 { Some(b) => cat_boxes(bodies, n).push(b), None => cat_boxes(bodies, n) }),
+{
+    lemma_for_push(var, idx, items, bodies, x, n);
+    lemma_push(0, var, 0real, 0real, bodies, x, n);
+    assert(bodies.push(x)[n as int] == x);
+    assert(tr1 =~= pre + for_passes(var, idx, items, bodies.push(x), n + 1));
+}
+#[verifier::opaque]
+pub open spec fn for_post(limit: nat, pre: Seq<Step>, post: Seq<Step>, out: Seq<OutEv>, boxes: Seq<BoundingBox>) -> bool {
+    exists|var: Seq<char>, idx: Option<Seq<char>>, items: Seq<Seq<char>>, bodies: Seq<Step>| #![trigger for_passes(var, idx, items, bodies, items.len())]
+        all_bodies(bodies) && bodies.len() == items.len() && items.len() <= limit
+        && post == pre + for_passes(var, idx, items, bodies, items.len())
+        && out == cat_events(bodies, items.len()) && boxes == cat_boxes(bodies, items.len())
+}
+pub proof fn lemma_for_exit(limit: nat, var: Seq<char>, idx: Option<Seq<char>>, items: Seq<Seq<char>>, bodies: Seq<Step>,
+                            pre: Seq<Step>, tr: Seq<Step>, out: Seq<OutEv>, boxes: Seq<BoundingBox>)
+    requires all_bodies(bodies), bodies.len() == items.len(),
+        items.len() <= limit,     // every list item was rendered and their number is within the limit  @C17.for.limit
+        tr == pre + for_passes(var, idx, items, bodies, items.len()), out == cat_events(bodies, items.len()), boxes == cat_boxes(bodies, items.len()),
+    ensures for_post(limit, pre, tr, out, boxes)
+{ reveal(for_post); }
+
+pub open spec fn strs(v: Seq<String>) -> Seq<Seq<char>> { v.map(|i: int, s: String| s@) }
+pub open spec fn opt_str(o: Option<String>) -> Option<Seq<char>> { match o { Some(s) => Some(s@), None => None } }
+
+impl EventGen for ForElement {
+//@item src/loop_el.rs :: impl EventGen for ForElement :: fn generate_events
+//@ replace[R-tostring] <<<&idx.to_string()>>> => <<<&u32_to_string(idx)>>>
+//@ before <<<for item in data_list {>>>
+//@ | let ghost g_pre = context.tr@;
+//@ | let ghost g_list = data_list@;
+//@ | let ghost g_items = strs(data_list@);
+//@ | let ghost g_var = for_def.var_name@;
+//@ | let ghost g_idx = opt_str(idx_name);
+//@ | let ghost mut g_bodies: Seq<Step> = Seq::empty();
+//@ | let ghost g_limit = context.config.loop_limit as nat;
+//@ after <<<for item in data_list {>>>
+//@ | let ghost g_tr0 = context.tr@;
+//@ before <<<gen_events.extend(&ev_list);>>>
+//@ | proof {
+//@ |     let x = Step::Body(ev_list@, ev_bbox);
+//@ |     assert(item == g_list[idx as int]);
+//@ |     assert(item@ == g_items[idx as int]);
+//@ |     assert(context.tr@ =~= g_tr0 + seq![Step::Set(g_var, g_items[idx as int])]
+//@ |            + (match g_idx { Some(i) => seq![Step::Set(i, u32_str(idx as int))], None => Seq::<Step>::empty() }) + seq![x]);
+//@ |     lemma_for_pass(g_var, g_idx, g_items, g_bodies, x, idx as nat, g_pre, g_tr0, context.tr@);
+//@ |     g_bodies = g_bodies.push(x);
+//@ | }
+//@ before <<<Ok((gen_events, bbox.build()))>>>
+//@ | proof {
+//@ |     lemma_for_exit(old(context).config.loop_limit as nat, g_var, g_idx, g_items, g_bodies, old(context).tr@, context.tr@, gen_events@, bbox.boxes());
+//@ |     // solver nudge: name the result term so its tuple projection is available
+//@ |     let t: Result<(OutputList, Option<BoundingBox>)> = Ok((gen_events, union_spec(bbox.boxes()))); assert(t->Ok_0.0 == gen_events);
+//@ | }
+//@ ensures
+//@ - match r { Err(_) => true, Ok((ol, bb)) =>
+//@     exists|boxes: Seq<BoundingBox>| #[trigger] for_post(old(context).config.loop_limit as nat, old(context).tr@, final(context).tr@, ol@, boxes)
+//@       && bb == union_spec(boxes) }     @@C16.for.unrolling @@C17.for.exact
+//@ loop 1
+//@ iter it
+//@ invariant
+//@ - context.config == old(context).config
+//@ - context.config.loop_limit < u32::MAX
+//@ - g_limit == context.config.loop_limit
+//@ - g_pre == old(context).tr@
+//@ - g_idx == opt_str(idx_name)
+//@ - g_var == for_def.var_name@
+//@ - idx == it.index@
+//@ - g_list == it.history@ + vstd::std_specs::iter::IteratorSpec::remaining(&it.iter)
+//@ - g_items == strs(g_list)
+//@ - idx <= context.config.loop_limit
+//@ - all_bodies(g_bodies)
+//@ - g_bodies.len() == idx
+//@ - context.tr@ == g_pre + for_passes(g_var, g_idx, g_items, g_bodies, idx as nat)
+//@ - gen_events@ == cat_events(g_bodies, idx as nat)
+//@ - bbox.boxes() == cat_boxes(g_bodies, idx as nat)
+//@end
+}
+
+// ------------------------------------------------------------------------------ <if>
+impl EventGen for IfElement {
+//@item src/transform.rs :: impl EventGen for IfElement :: fn generate_events
+//@ ensures
+//@ - match r { Err(_) => true, Ok((ol, bb)) =>
+//@       final(context).tr@ == old(context).tr@.push(Step::Cond(true)).push(Step::Body(ol@, bb))
+//@    || (final(context).tr@ == old(context).tr@.push(Step::Cond(false)) && ol@ == Seq::<OutEv>::empty() && bb is None)
+//@    || (final(context).tr@ == old(context).tr@ && ol@ == Seq::<OutEv>::empty() && bb is None) }     @@C16.if
+//@end
+}
+
 } // verus!
 fn main() {}
